@@ -53,10 +53,10 @@ def concrete(n: dict, hmap: dict, tight: bool = False) -> str:
     return PFX[n["pfx"]] + (" " + years if years else "") + " " + hmap.get(n["holder"], n["holder"])
 
 
-def lint_notices(root) -> list:
+def lint_notices(root, name: str = "f.py") -> list:
     r = core.run_reuse(["--root", str(root), "--no-multiprocessing", "lint", "--json"])
     rep = json.loads(r["out"])
-    f = [x for x in rep["files"] if x["path"] == "f.py"]
+    f = [x for x in rep["files"] if x["path"] == name]
     return sorted(c["value"] for c in f[0]["copyrights"]) if f else []
 
 
@@ -120,13 +120,18 @@ def run_case(case: dict) -> dict:
                 if case["via"] == "cli-new":
                     # a file without any header; every notice is given on the command line, as a notice
                     f.write_text("x = 1\n")
+                    # two more files without a header in the same invocation: each of the three gets every notice
+                    others = [root / "a_first.py", root / "z_last.py"] if case["tid"] % 2 else []
+                    for o_ in others:
+                        o_.write_text("y = 2\n")
                     args = ["--root", str(root), "annotate", "--merge-copyrights", "--exclude-year", "--license", "MIT"]
                     for n in S:
                         args += ["--copyright", concrete(n, hmap, tight)]
-                    r = _run(case, [*args, str(f)])
+                    r = _run(case, [*args, str(f), *map(str, others)])
                     if r["exc"] or r["exit"] != 0:
                         ev["crash"] = (r["exc"] or r["out"] + r["err"])[-400:]
-                    ev["O"] = [parse_notice(x) for x in sorted(lint_notices(root))]
+                    per_file = [lint_notices(root, x.name) for x in [f, *others]]
+                    ev["O"] = [parse_notice(x) for x in sorted(min(per_file, key=len))]      # (the file that got least)
                     ev["via"] = case["via"]
                     return ev
                 if case["via"] == "cli-noadd":
